@@ -38,6 +38,7 @@ type Prog struct {
 	rolesCache    *Roles
 	reach         map[*ssa.Function]bool
 	batchCache    []*batchModel
+	lockCache     *lockCtx
 	staticCallers map[*ssa.Function][]ssa.CallInstruction
 }
 
